@@ -39,39 +39,23 @@ def processFactory (cfg : Cfg) (env : Env) (r : Response) : Outcome :=
 
 /-! ### the third public entry point: `saml2.response.response_factory(...)` followed by `verify()`
 
-  `response_factory` loads the message into a bare `StatusResponse` (Response signature verified when present, never
-  demanded), then builds an `AuthnResponse` and copies the parsed message over with `update()`:
-  `AuthnResponse.loads` is NOT run.  So, compared with `processFactory`:
-    * nothing is compared with the caller's outstanding requests at load time (no `came_from` yet, no
-      `UnsolicitedResponse`, no comparison of the confirmations' InResponseTo with the Response's); what remains is
-      the bearer confirmation's own look-up and the final `came_from` test of `_assertion`;
-    * the configuration's `extension_schema` IS handed to the constructor (the only entry point that does). -/
+  `response_factory` (after fix f342ca56) loads the message twice: first into a bare `StatusResponse` (Response
+  signature verified when present, never demanded), then, when the message carries an assertion, into the
+  `AuthnResponse` it builds, with `AuthnResponse.loads` — the same load-time correlation with the caller's outstanding
+  requests as `authn_response()` + `loads()`.  A signature failure in either load refuses the message.  What is
+  specific to this entry point: the configuration's `extension_schema` IS handed to the constructor (the only entry
+  point that does; the other two apply `Sp.noExt`).  Before the fix the second load was an `update()` and the
+  correlation was skipped (regression case corpus/C06/respfactory_uncorrelated.json). -/
 
 /-- `StatusResponse.loads` as `response_factory` runs it (`must = False`, `require_response_signature = False`). -/
 def loadsStatus (r : Response) : Except Err Unit :=
   if r.sig.present && r.sig != .valid then .error .sigBadResponse else .ok ()
 
-/-- `response_factory(...)` (a Response with at least one assertion), then `verify()`. -/
+/-- `response_factory(...)` (a Response with at least one assertion), then `verify()`: the first load, then exactly
+    what `authn_response()` + `loads()` + `verify()` does. -/
 def processRespFactory (cfg : Cfg) (env : Env) (r : Response) : Outcome :=
   match loadsStatus r with
   | .error e => .rejected e
-  | .ok _ =>
-    match verify cfg env cfg.wantAssert {} r with
-    | .error e => .rejected e
-    | .ok none => .noIdentity
-    | .ok (some p) =>
-      match p.used with
-      | [] => .noIdentity
-      | a :: _ =>
-        match a.authn with
-        | s :: _ =>
-          .identity {
-            nameId := p.st.nameId
-            issuer := pyStrip (r.issuer.getD "")
-            cameFrom := p.st.cameFrom
-            notOnOrAfter := if p.st.sessionNooa > 0 then p.st.sessionNooa else p.st.notOnOrAfter
-            sessionIndex := s.sessionIndex
-            cached := false }
-        | [] => .noIdentity
+  | .ok _ => processFactory cfg env r
 
 end Sp
